@@ -107,11 +107,19 @@ func TestGovcBounded(t *testing.T) {
 			}
 		}
 		// normalisation off: no oracle for the bytes; the text must decode back to the same string when it is valid UTF-8
-		for _, opt := range [][]EncodeOptionFunc{{DisableNormalizeUTF8()}, {DisableNormalizeUTF8(), DisableHTMLEscape()}} {
+		for oi, opt := range [][]EncodeOptionFunc{{DisableNormalizeUTF8()}, {DisableNormalizeUTF8(), DisableHTMLEscape()}} {
 			got, err := MarshalWithOption(s, opt...)
 			if err != nil {
 				record("encode-nonormalize-error", fmt.Sprintf("%q: %v", s, err))
 				continue
+			}
+			// with HTML escaping on there is no raw <, >, & and no raw U+2028/U+2029, normalisation or not
+			if oi == 0 && (bytes.ContainsAny(got, "<>&") || bytes.Contains(got, []byte("\xe2\x80\xa8")) || bytes.Contains(got, []byte("\xe2\x80\xa9"))) {
+				if bytes.ContainsAny(got, "<>&") {
+					record("encode-html-nonormalize-raw-html-character", fmt.Sprintf("%q: %q", s, got))
+				} else {
+					record("encode-html-nonormalize-raw-line-separator", fmt.Sprintf("%q: %q", s, got))
+				}
 			}
 			if stdjson.Valid(got) {
 				var back string
